@@ -42,21 +42,21 @@ type RefRun struct {
 }
 
 type RefResult struct {
-	Outcome  kernel.Outcome
-	RealErr  error
-	RefErr   error
-	RealDone bool
-	RefDone  bool
-	Panic    string
-	Stats    kernel.Stats
-	Hash     uint64
-	Shape    uint64
-	Tape     []uint32
-	Pending  string
-	HookErr  error
+	Outcome                    kernel.Outcome
+	RealErr                    error
+	RefErr                     error
+	RealDone                   bool
+	RefDone                    bool
+	Panic                      string
+	Stats                      kernel.Stats
+	Hash                       uint64
+	Shape                      uint64
+	Tape                       []uint32
+	Pending                    string
+	HookErr                    error
 	BytesToReal, BytesFromReal int64
-	RefGaveUp bool
-	Harness   string // harness trouble: the run is inconclusive, never a violation
+	RefGaveUp                  bool
+	Harness                    string // harness trouble: the run is inconclusive, never a violation
 }
 
 // RunWithRef executes the run in a fresh bubble.
